@@ -65,17 +65,23 @@ Section Reach.
   Variable job_ok : N -> bool.
   Hypothesis job_total : forall a, job_ok a = true.
 
-  (* s is the state after a trace of batches of <= 15 spawns, each batch started when nothing is outstanding *)
-  Definition reachable (n : nat) (s : pstate) : Prop :=
-    exists tr, N.of_nat (length tr) < 2 ^ 63 /\ bdisc_trace jf job_ok (init n) tr
+  (* s is the state after a trace of k steps made of batches of <= 15 spawns, each batch started when nothing is
+     outstanding *)
+  Definition reachable_in (n : nat) (k : N) (s : pstate) : Prop :=
+    exists tr, N.of_nat (length tr) = k /\ k < 2 ^ 63 /\ bdisc_trace jf job_ok (init n) tr
                /\ run jf job_ok (init n) tr = Some (Ok s).
 
-  Lemma reachable_inv n s : reachable n s -> Inv jf s /\ BInv s.
+  Definition reachable (n : nat) (s : pstate) : Prop := exists k, reachable_in n k s.
+
+  Lemma reachable_in_inv n k s : reachable_in n k s -> Inv jf s /\ BInv s /\ Bnd k s.
   Proof.
-    intros (tr & Hl & Hd & Hr). destruct (inv_init jf n) as (HI & HB & HBI & _).
+    intros (tr & Hl & Hk & Hd & Hr). destruct (inv_init jf n) as (HI & HB & HBI & _).
     pose proof (run_safe_batch jf job_ok job_total tr 0 (init n) ltac:(lia) HI HB HBI Hd) as P.
-    rewrite Hr in P. destruct P as (P1 & P2 & _). split; assumption.
+    rewrite Hr in P. destruct P as (P1 & P2 & P3). rewrite N.add_0_l, Hl in P3. split; [exact P1|]. split; [exact P2|exact P3].
   Qed.
+
+  Lemma reachable_inv n s : reachable n s -> Inv jf s /\ BInv s.
+  Proof. intros [k R]. destruct (reachable_in_inv n k s R) as (H1 & H2 & _). split; assumption. Qed.
 
   Lemma length_wpcs_step s m s' : step jf job_ok s m = Some (Ok s') -> length (wpcs s') = length (wpcs s).
   Proof.
@@ -123,7 +129,7 @@ Section Reach.
 
   Lemma reachable_workers n s : reachable n s -> length (wpcs s) = n.
   Proof.
-    intros (tr & _ & _ & Hr). rewrite (length_wpcs_run _ _ _ Hr). cbn. apply repeat_length.
+    intros (k & tr & _ & _ & _ & Hr). rewrite (length_wpcs_run _ _ _ Hr). cbn. apply repeat_length.
   Qed.
 End Reach.
 
